@@ -262,7 +262,13 @@ func (c *RollingFileAppender) rotate() {
 
 	verifPoint("roll.rotate.created")
 	oldFile := c.file.Load()
-	c.oldFile.Store(oldFile)
+	if prev := c.oldFile.Swap(oldFile); prev != nil && prev != oldFile {
+		// Only when this rotation was overtaken by the next one while it was
+		// creating its file: the slot has been refilled in the meantime and
+		// that file would never be closed otherwise.
+		_ = prev.Sync()
+		_ = prev.Close()
+	}
 
 	c.file.Store(file)
 	c.currTime.Store(nowTime)
